@@ -37,9 +37,12 @@ def suite_array(ctx, case):
     val = case['value']; ks = case['k']
     vdt = np.float32 if case.get('f32') else float          # a table read from a single-precision file / trajectory analysis
     caller = np.array(val, dtype=vdt)
+    if case.get('vint'): caller = np.array(val, dtype=int)          # an integer-typed table ([1]*N, np.arange) - the k column keeps its own precision
+    if case.get('frozen'): caller.setflags(write=False)          # a write-protected array: thawed and changed by the caller after the object was built
     kc = case.get('kcont', 'array')
     kobj = None if ks is None else (tuple(float(x) for x in ks) if kc == 'tuple' else [float(x) for x in ks] if kc == 'list' else np.array(ks, dtype=float))
     o = pyPRISM.omega.FromArray(caller, kobj)
+    if case.get('frozen'): caller.setflags(write=True)
     caller[:] = -777.0          # later changes to the caller's array must not leak
     impl = outcome(lambda: o.calculate(kd))
     line = 'fa.calc | %s | %s | %s' % (fl(val), 'none' if ks is None else fl(ks), fl(kd))
@@ -244,8 +247,12 @@ def generate(ctx):
             if rng.random() < 0.1: nval = max(1, nval + rng.choice([-1, 1]))
             if rel == 'prepend0' and ks is not None and rng.random() < 0.4: nval = L          # only the k column is one point too long
             case = {'kd': kd, 'k': ks, 'value': [round(rng.choice([rng.uniform(0, 30), rng.uniform(-0.5, 0.5), rng.uniform(-30, 30), 0.0, 10 ** rng.uniform(-12, -6)]), 12) for _ in range(nval)], 'rel': rel, 'kcont': rng.choice(['array', 'array', 'list', 'tuple']), 'dom': [L, dr]}
-            if rng.random() < 0.15:
+            c9 = rng.random()
+            if c9 < 0.15:
                 case['f32'] = True; case['value'] = [float(np.float32(v)) for v in case['value']]
+            elif c9 < 0.3:
+                case['vint'] = True; case['value'] = [float(int(round(v))) for v in case['value']]
+            if rng.random() < 0.25: case['frozen'] = True
             ctx.case('array', case, rel != 'equal', tags=['kind:' + kind, 'rel:' + rel, 'L<=%d' % (8 * ((L + 7) // 8))])
             suite_array(ctx, case)
         else:
